@@ -444,6 +444,31 @@ theorem zip_three_loops_names (streams pkg temp : List String) (n : String) :
     n ∈ ZipList.zipNames streams pkg temp ↔ n ∈ streams ∨ n ∈ pkg ∨ n ∈ temp :=
   ZipList.mem_zipNames streams pkg temp n
 
+/-- `zip_three_loops_perm_union` (round 5): the entry names written by the three loops of writeToZip are,
+with multiplicity, the union of the key sets of File.streams, File.Pkg and File.tempFiles — a permutation
+of every duplicate-free list holding exactly those names; in particular as many entries as distinct names -/
+theorem zip_three_loops_perm_union (streams pkg temp u : List String)
+    (hs : streams.Nodup) (hp : pkg.Nodup) (ht : temp.Nodup) (hu : u.Nodup)
+    (h : ∀ n, n ∈ u ↔ n ∈ streams ∨ n ∈ pkg ∨ n ∈ temp) :
+    List.Perm (ZipList.zipNames streams pkg temp) u ∧ (ZipList.zipNames streams pkg temp).length = u.length :=
+  ⟨ZipList.zipNames_perm_of_union hs hp ht hu h, (ZipList.zipNames_perm_of_union hs hp ht hu h).length_eq⟩
+
+/-- `zip_three_loops_tier_independent` (round 5): limit-independence of the three-loop listing — two stores
+with the same stream parts whose File.Pkg / File.tempFiles hold the same part names *between them* (which
+tier holds a part is what UnzipXMLSizeLimit and the history of promotions decide) write the same entry
+names with the same multiplicity, whatever the split -/
+theorem zip_three_loops_tier_independent (streams pkg1 temp1 pkg2 temp2 : List String)
+    (hs : streams.Nodup) (hp1 : pkg1.Nodup) (ht1 : temp1.Nodup) (hp2 : pkg2.Nodup) (ht2 : temp2.Nodup)
+    (h : ∀ n, (n ∈ pkg1 ∨ n ∈ temp1) ↔ (n ∈ pkg2 ∨ n ∈ temp2)) :
+    List.Perm (ZipList.zipNames streams pkg1 temp1) (ZipList.zipNames streams pkg2 temp2) :=
+  ZipList.zipNames_tier_independent hs hp1 ht1 hp2 ht2 h
+
+/-- the order of the entries does depend on the tier split (witness), so "same names with the same
+multiplicity" is the full-strength tier-independent statement, not a weakening of list equality -/
+theorem zip_order_depends_on_tier :
+    ZipList.zipNames [] ["xl/a.xml", "xl/z.xml"] [] ≠ ZipList.zipNames [] ["xl/a.xml"] ["xl/z.xml"] :=
+  ZipList.order_depends_on_tier
+
 /-- the temp loop without the stream test (the code before the second fix window) wrote a
 stream-rewritten spilled worksheet twice -/
 theorem zip_old_temp_loop_duplicates :
